@@ -32,6 +32,18 @@ CHECKS = [
           "refuted by a computed witness. Tie: transform(None/X_train, NumInt/InnPro), inverse_transform vs the exact Q model fed with the "
           "implementation's mean, weight, eigenfunctions, on 1-D and 2-D data; open finding F2 recognised by exact agreement with the defect model.",
   "note": STD_NOTE + " PACE scores: well-formedness only. Projection property outside the span is not proved (C03_roundtrip_is_projection_partial)."},
+ {"id": "C05",
+  "text": "Theorems about the explicit (tensor-product) penalised weighted least-squares normal equations A c = B^T(w.Bc) + sum lambda D^T D c = "
+          "B^T(w.y), for ANY design rows, weights >= 0, penalties >= 0 (hence any dimension): quadratic form c.Ac = sum w_k (b_k.c)^2 + sum "
+          "lambda |Dc|^2 >= 0; two solutions have equal fitted values wherever the weight is positive (equal coefficients when the form is "
+          "definite); solutions combine linearly in the responses; zero-weight responses do not enter; any beta0 annihilated by the penalty "
+          "matrices is reproduced for EVERY lambda; d-th differences annihilate polynomial sequences of degree < d (d=1,2,3); leverages "
+          "w_i b_i.A^-1 b_i lie in [0,1]. Tie: PSplines.fit/predict in 1-D, 2-D, 3-D with independent n_segments/degree per dimension: "
+          "beta_hat, y_hat, hat-matrix diagonal and predictions are verified as certificates against the MODEL's normal equations (Cox-de Boor "
+          "basis, Kronecker rows, difference penalties) exactly in Q.",
+  "note": STD_NOTE + " Partial: polynomial reproduction needs Marsden's identity (not proved; monitored). The solver's output is checked as a "
+          "certificate (residual), not recomputed; leverage certificates are exact for all observations in 1-D and for a sample in 2-D/3-D "
+          "(all are compared with a NumPy reference)."},
  {"id": "C08",
   "text": "Theorems (all grids that are non-decreasing lists of reals, all integrands/datasets of matching length): trapezoid integration equals "
           "the dot product with its own weights, weights >= 0, additive and homogeneous, exact on affine pieces and additive over adjacent "
